@@ -7,13 +7,16 @@ ASSUMPTIONS = ["patterns: corpus P1 only; haystacks: all byte strings of the lis
 def items(tier):
     out = []
     maxL = 3 if tier == "quick" else 4
-    for p, strat, tags in corpus.entries(tier):
+    for idx, (p, strat, tags) in enumerate(corpus.entries(tier)):
         alpha = "utf8" if corpus.uses_anychar(p) else ""
         for L in corpus.lengths(tags, tier, maxL):
             out.append({"id": "C02|%s|FindIndex|L%d|%s" % (p, L, alpha or "full"), "Harness": "C02", "Pattern": p, "API": "FindIndex", "L": L, "Alpha": alpha,
                         "strategy": strat, "reach": ["match", "nomatch"] if L == maxL else None})
         for pre, post in corpus.windows(p):
             out.append({"id": "C02|%s|FindIndex|L%d|%s|w%s+%s" % (p, maxL, alpha or "full", pre.encode().hex(), post.encode().hex()), "Harness": "C02", "Pattern": p, "API": "FindIndex", "L": maxL, "Alpha": alpha, "Pre": pre, "Post": post, "strategy": strat})
+        # FindReaderIndex over ALL byte strings (offsets must count an ill-formed byte as one byte, as regexp does)
+        if tier != "quick" or idx % 5 == 0:
+            out.append({"id": "C02|%s|FindReaderIndex|L2|full" % p, "Harness": "C02", "Pattern": p, "API": "FindReaderIndex", "L": 2, "Alpha": "", "strategy": strat})
         for api in ["Find", "FindStringIndex", "FindString"]:
             out.append({"id": "C02|%s|%s|L2|%s" % (p, api, alpha or "full"), "Harness": "C02", "Pattern": p, "API": api, "L": 2, "Alpha": alpha, "strategy": strat})
     return out
